@@ -71,9 +71,11 @@ type routerCase struct {
 	hdrNote     string
 	skip        string // non-empty: no genesis parameter could be synthesised (reason)
 
-	chain [2]uint64
-	txs   map[string]*types.Transaction
-	evs   []string
+	chain          [2]uint64
+	extraX, extraY []byte // ExtraInfo of the updateSideChain events uAx / uAy (nil: keep the registered one)
+	multi          map[string][]*types.Transaction
+	txs            map[string]*types.Transaction
+	evs            []string
 }
 
 const (
@@ -136,6 +138,7 @@ type outcome struct {
 }
 
 type state struct {
+	upd  bool // the registration of chain A was updated on this path (a first install may then be legitimately refused)
 	d    polyenv.Dump
 	key  string
 	inst [2]bool
@@ -247,6 +250,9 @@ func (rc *routerCase) opDesc() map[string]string {
 	for _, e := range rc.evs {
 		x := int(e[1] - 'A')
 		switch {
+		case e[0] == 'u':
+			m[e] = fmt.Sprintf("updateSideChain(chain A) + approveUpdateSideChain by the validators: %s", map[byte]string{'x': "CCMCAddress, BlocksToWait (and ExtraInfo where the router reads it: value NOT dividing the installed height) changed",
+				'y': "BlocksToWait (and ExtraInfo: value dividing the installed heights) changed"}[e[2]])
 		case e[0] == 'i':
 			m[e] = fmt.Sprintf("syncGenesisHeader(chain %c=%#x, %s) signed by the consensus operator", e[1], rc.chain[x], variantDesc[e[2]])
 		case len(e) == 2:
@@ -278,6 +284,36 @@ func (rc *routerCase) prepare() {
 	}
 	if rc.hdr0 != nil && rc.g0 != nil {
 		add("hA0", hsenv.HeadersTx(rc.chain[0], rc.hdr0...))
+	}
+	// uAx / uAy: the registration of chain A is updated through the real updateSideChain + approveUpdateSideChain
+	// transactions (router unchanged). x: CCMCAddress and BlocksToWait changed, ExtraInfo = extraX; y: BlocksToWait
+	// changed, ExtraInfo = extraY.
+	rc.multi = map[string][]*types.Transaction{}
+	for i, u := range []struct {
+		e     string
+		wait  uint64
+		ccmc  []byte
+		extra []byte
+	}{{"uAx", 7, append([]byte{0xcc}, rc.ccmc...), rc.extraX}, {"uAy", 3, rc.ccmc, rc.extraY}} {
+		extra := u.extra
+		if extra == nil {
+			extra = rc.extra
+		}
+		owner := polyenv.Key(20)
+		p := &side_chain_manager.RegisterSideChainParam{Address: owner.Addr, ChainId: rc.chain[0], Router: rc.router, Name: rc.name + "A",
+			BlocksToWait: u.wait, CCMCAddress: u.ccmc, ExtraInfo: extra}
+		sink := common.NewZeroCopySink(nil)
+		p.Serialization(sink)
+		nonce := uint32(195000 + 100*i + int(rc.router))
+		txs := []*types.Transaction{polyenv.Tx(utils.SideChainManagerContractAddress, side_chain_manager.UPDATE_SIDE_CHAIN, sink.Bytes(), nonce, polyenv.Single(owner))}
+		for j, v := range env.Vals {
+			cp := &side_chain_manager.ChainidParam{Chainid: rc.chain[0], Address: v.Addr}
+			s2 := common.NewZeroCopySink(nil)
+			cp.Serialization(s2)
+			txs = append(txs, polyenv.Tx(utils.SideChainManagerContractAddress, side_chain_manager.APPROVE_UPDATE_SIDE_CHAIN, s2.Bytes(), nonce+1000+uint32(j)*10, polyenv.Single(v)))
+		}
+		rc.multi[u.e] = txs
+		rc.evs = append(rc.evs, u.e)
 	}
 }
 
@@ -356,7 +392,17 @@ func (rc *routerCase) explore(base polyenv.Dump, depth int) (rs routerStats) {
 		},
 		Step: func(s *state, e string) (*state, bool) {
 			sim.Load(s.d)
-			res := sim.Exec(rc.txs[e], execHeight, execTime)
+			var res polyenv.Result
+			if m := rc.multi[e]; m != nil {
+				res = sim.Exec(m[0], execHeight, execTime)
+				if res.OK {
+					for _, tx := range m[1:] {
+						sim.Exec(tx, execHeight, execTime) // approvals; those after the quorum fail harmlessly
+					}
+				}
+			} else {
+				res = sim.Exec(rc.txs[e], execHeight, execTime)
+			}
 			nd := sim.Dump()
 			n := &state{d: nd, inst: s.inst, last: &outcome{ok: res.OK, changed: diffKeys(s.d, nd)}}
 			if res.Err != nil {
@@ -368,6 +414,7 @@ func (rc *routerCase) explore(base polyenv.Dump, depth int) (rs routerStats) {
 			if e[0] == 'i' && res.OK {
 				n.inst[e[1]-'A'] = true
 			}
+			n.upd = s.upd || (e[0] == 'u' && len(n.last.changed) > 0)
 			n.key = dumpKey(n.d, n.inst)
 			return n, true
 		},
@@ -389,12 +436,21 @@ func (rc *routerCase) explore(base polyenv.Dump, depth int) (rs routerStats) {
 				}
 			}
 			switch e[0] {
+			case 'u':
+				if o.ok && len(o.changed) > 0 {
+					r.Class("sidechain-registration-updated")
+					r.Case(fmt.Sprintf("%s/%s/updated", rc.name, e))
+				} else {
+					r.Class("sidechain-update-noop")
+				}
 			case 'i':
 				if !prev.inst[x] {
 					if o.ok {
 						rs.Accepted++
 						r.Class("install-accepted")
 						r.Case(fmt.Sprintf("%s/first-install/%s/accepted", rc.name, e))
+					} else if prev.upd && x == 0 {
+						r.Class("first-install-refused-under-updated-registration")
 					} else {
 						r.Class("first-install-rejected")
 						flag("first-install-rejected:"+rc.name, path, detail())
